@@ -104,7 +104,8 @@ def main(argv):
                        'HXVERIF_REPO=<worktree> ./check %s quick [thorough]' % prop]
         with open(os.path.join(d, 'meta.json'), 'w') as f:
             json.dump(meta, f, indent=1)
-    print(json.dumps(meta, indent=1)[:3000])
+    brief = dict((k, v) for k, v in meta.items() if k not in ('needs', 'demo_patched_output', 'ran'))
+    print(json.dumps(brief, indent=1))
     return 0
 
 
